@@ -269,7 +269,15 @@ func c08ManyLabels(c *ctx, n int) error {
 		}
 	}
 	probe()
-	perm := r.Perm(3)
+	// the oldest bundle first (by ID), then the next: every deletion leaves labels of more recent
+	// bundles behind, spread over all the listing batches
+	perm := []int{0, 1, 2}
+	sort.Slice(perm, func(i, j int) bool {
+		return e.bundles[e.ofRepo[repo][perm[i]]] < e.bundles[e.ofRepo[repo][perm[j]]]
+	})
+	if n%2 == 1 { // odd sizes: the middle one first
+		perm[0], perm[1] = perm[1], perm[0]
+	}
 	e.delBundle(repo, e.ofRepo[other][0]) // not a bundle of this repository: refused, nothing changes
 	e.delBundle(repo, e.ofRepo[repo][perm[0]])
 	probe()
